@@ -240,6 +240,23 @@ def fc_agreement(fc):
     return (len(fl) == 1 and fl == br), fl, br
 
 
+def fc_context_agreement(fc):
+    """the same sub-value is printed under the same nesting depth in the flat and in the broken alternative (the strategy may
+    differ: it only selects how a long string is wrapped).  Returns (ok, description)"""
+    def depths(t):
+        out = {}
+        for seq in D.all_layouts(t, 'break'):
+            for a in D.content_atoms(seq):
+                if isinstance(a, D.Sub) and isinstance(a.ctx, str) and '+' in a.ctx:
+                    out.setdefault(norm_prov(a.prov), set()).add(a.ctx.split(':')[0])
+        return out
+    fl, br = depths(fc.flat), depths(fc.broken)
+    for p_ in sorted(set(fl) & set(br)):
+        if fl[p_] != br[p_]:
+            return False, '%s is printed under %s when flat but under %s when broken' % (p_, sorted(fl[p_]), sorted(br[p_]))
+    return True, ''
+
+
 def comment_followers(t, top='break'):
     """(layout index, Cmt, follower) for every comment occurrence in every layout"""
     out = []
